@@ -356,7 +356,9 @@ func c12Scenarios() []dualrun.Scenario {
 				_ = c.w.Proxy.Server(e.ServerInfo().Name())
 			})
 		}, func() dualrun.Scenario {
-			return mk("server-event-subscriber-lists-servers", 2, 3, 150, 2000, false, nil, 1, map[string]body{
+			// scheduler pass only: on a tree where the events are fired under the registry lock the set-up itself
+			// deadlocks - a finding with a trace under the scheduler, but a hang of the whole free-running pass
+			return mk("server-event-subscriber-lists-servers", 2, 3, 0, 0, false, nil, 1, map[string]body{
 				"r": func(c *c12) { c.servers() },
 				"w": func(c *c12) {
 					if _, err := c.w.Proxy.Register(srv3); err != nil {
